@@ -75,7 +75,7 @@ def gen_inputs(ctx, frames4, frames5):
                     add(v, side, mu, [len(mu)], n)
         # (d) streams of concatenated valid frames under random chunkings
         for _ in range(20 if ctx.quick else 200):
-            stream = b"".join(rng.sample(frames, 5))
+            stream = b"".join(rng.sample(frames, min(5, len(frames))))
             for side in ("client", "broker"):
                 add(v, side, stream, [len(stream)])
                 for _ in range(3):
@@ -100,7 +100,8 @@ def run(ctx):
         fr = []
         for l in open(rp):
             r = json.loads(l)
-            if r["ok"] and r["len"] <= 300:
+            # the bytes the encoder wrote are an input for the decoders whether or not the round trip of this vector succeeded
+            if 0 < r["len"] <= 300:
                 fr.append(cc.expand(r["rle"]))
         frames[v] = sorted(set(fr))
     inputs = gen_inputs(ctx, frames[4], frames[5])
